@@ -101,6 +101,58 @@ type c17Case struct {
 	Exercise bool `json:"exercise,omitempty"`
 	// APISteps (with API): two AddTypes calls, see lateRoots
 	APISteps bool `json:"api_steps,omitempty"`
+	// Draft: before the schema arrives, a refused draft of it is loaded: the same definitions with
+	// other descriptions and, for objects, one more field - refused in validation (an object lacking a field of its interface, at its end)
+	Draft bool `json:"draft,omitempty"`
+	// Midway (with FailedLoad): further refused documents, each an extension that fails part way (a
+	// new member listed before one the type already has)
+	Midway bool `json:"midway,omitempty"`
+}
+
+// draftOf: the definitions of the schema as an earlier draft had them, refused in validation.
+func draftOf(s *hx.Schema) string {
+	cp := *s
+	cp.Types = nil
+	for _, td := range s.Types {
+		c2 := *td
+		c2.Desc = "draft of " + td.Name
+		if td.Kind == hx.KObject || td.Kind == hx.KInterface {
+			c2.Fields = append(append([]*hx.Field{}, td.Fields...), &hx.Field{Name: "zqDraftOnly", Type: hx.Named("Int")})
+		}
+		if td.Kind == hx.KInput {
+			c2.Inputs = append(append([]*hx.Arg{}, td.Inputs...), &hx.Arg{Name: "zqDraftOnly", Type: hx.Named("Int")})
+		}
+		cp.Types = append(cp.Types, &c2)
+	}
+	return cp.SDL(hx.SDLOpts{}) + "\ninterface ZqDraftI { b: Int }\ntype ZqDraftT implements ZqDraftI { a: Int }\n"
+}
+
+// midwayExtensions: documents that each extend one type with a new member followed by a member the
+// type already has (the extension fails when it is half applied).
+func midwayExtensions(s *hx.Schema) []string {
+	var out []string
+	seen := map[string]bool{}
+	for _, td := range s.Types {
+		if seen[td.Kind] {
+			continue
+		}
+		switch {
+		case td.Kind == hx.KObject && len(td.Fields) > 0:
+			out = append(out, fmt.Sprintf("extend type %s { zqMid: Int %s: Int }\n", td.Name, td.Fields[0].Name))
+		case td.Kind == hx.KInterface && len(td.Fields) > 0:
+			out = append(out, fmt.Sprintf("extend interface %s { zqMid: Int %s: Int }\n", td.Name, td.Fields[0].Name))
+		case td.Kind == hx.KEnum && len(td.Values) > 0:
+			out = append(out, fmt.Sprintf("extend enum %s { ZQMID %s }\n", td.Name, td.Values[0].Name))
+		case td.Kind == hx.KInput && len(td.Inputs) > 0:
+			out = append(out, fmt.Sprintf("extend input %s { zqMid: Int %s: Int }\n", td.Name, td.Inputs[0].Name))
+		case td.Kind == hx.KUnion && len(td.Members) > 0:
+			out = append(out, fmt.Sprintf("type ZqMidT { a: Int }\nextend union %s = ZqMidT | %s\n", td.Name, td.Members[0]))
+		default:
+			continue
+		}
+		seen[td.Kind] = true
+	}
+	return out
 }
 
 // lateRoots: the implied mutation and subscription types, if nothing else in the schema refers to
@@ -295,6 +347,12 @@ func checkC17(c *c17Case) (ds []hx.Discrepancy, info map[string]bool) {
 	info = map[string]bool{}
 	sdl := c.Schema.SDL(hx.SDLOpts{})
 	root := newRootOfKind(c.RootKind)
+	if c.Draft {
+		info["refused-draft-of-the-schema-loaded-first"] = true
+		if err := root.ParseString(draftOf(c.Schema)); err == nil {
+			return []hx.Discrepancy{{Kind: "setup", Detail: "the draft meant to be refused was accepted:\n" + draftOf(c.Schema)}}, info
+		}
+	}
 	if len(c.Loads) > 0 {
 		// the same definitions arriving in successive loads, the root being asked about itself
 		// after every one of them (the answers to those intermediate requests are not looked at)
@@ -347,6 +405,14 @@ func checkC17(c *c17Case) (ds []hx.Discrepancy, info map[string]bool) {
 		info["refused-load-before-the-request"] = true
 		if err := root.ParseString(refusedExtension(c.Schema)); err == nil {
 			return []hx.Discrepancy{{Kind: "setup", Detail: "the document meant to be refused was accepted:\n" + refusedExtension(c.Schema)}}, info
+		}
+		if c.Midway {
+			for _, doc := range midwayExtensions(c.Schema) {
+				info["refused-extension-that-fails-part-way"] = true
+				if err := root.ParseString(doc); err == nil {
+					return []hx.Discrepancy{{Kind: "setup", Detail: "the extension meant to be refused was accepted:\n" + doc + "\n" + sdl}}, info
+				}
+			}
 		}
 	}
 	if c.Exercise {
@@ -414,6 +480,89 @@ func checkC17(c *c17Case) (ds []hx.Discrepancy, info map[string]bool) {
 		ds = append(ds, d2...)
 		if len(ds) > 0 {
 			break
+		}
+	}
+	if len(ds) == 0 && c.Draft {
+		ds = append(ds, leafIdentity(root, sdl)...)
+	}
+	return
+}
+
+const c17LeafQuery = `{ __schema { types { name description fields(includeDeprecated: true) { name type { ...R } args { name type { ...R } } } inputFields { name type { ...R } } } } }
+fragment R on __Type { ...D ofType { ...D ofType { ...D ofType { ...D ofType { ...D ofType { ...D ofType { ...D } } } } } } }
+fragment D on __Type { name description fields(includeDeprecated: true) { name } inputFields { name } }`
+
+// leafIdentity: the named type at the end of every ofType chain is the type of that name - it has
+// the description and the members __schema.types lists under the name.
+func leafIdentity(root *ggql.Root, sdl string) (ds []hx.Discrepancy) {
+	var res map[string]interface{}
+	func() {
+		defer func() { _ = recover() }()
+		res = root.ResolveString(c17LeafQuery, "", nil)
+	}()
+	data, _ := res["data"].(map[string]interface{})
+	sch, _ := data["__schema"].(map[string]interface{})
+	types, _ := sch["types"].([]interface{})
+	if len(types) == 0 {
+		return []hx.Discrepancy{{Kind: "leaf-identity", Detail: "the request unrolling every type reference got no types: " + hx.Trunc(hx.Show(hx.Norm(res)), 600)}}
+	}
+	sig := func(m map[string]interface{}) string {
+		names := func(k string) string {
+			l, _ := m[k].([]interface{})
+			var out []string
+			for _, e := range l {
+				if em, _ := e.(map[string]interface{}); em != nil {
+					out = append(out, fmt.Sprint(em["name"]))
+				}
+			}
+			return strings.Join(out, ",")
+		}
+		return fmt.Sprintf("description=%q fields=[%s] inputFields=[%s]", fmt.Sprint(m["description"]), names("fields"), names("inputFields"))
+	}
+	byName := map[string]string{}
+	for _, t := range types {
+		if tm, _ := t.(map[string]interface{}); tm != nil {
+			byName[fmt.Sprint(tm["name"])] = sig(tm)
+		}
+	}
+	var walkRef func(ref interface{}, where string)
+	walkRef = func(ref interface{}, where string) {
+		rm, _ := ref.(map[string]interface{})
+		if rm == nil || len(ds) > 0 {
+			return
+		}
+		if inner, _ := rm["ofType"].(map[string]interface{}); inner != nil {
+			walkRef(inner, where) // (a wrapper: ggql gives those a name too)
+			return
+		}
+		if n, _ := rm["name"].(string); n != "" {
+			if want, ok := byName[n]; ok && want != sig(rm) {
+				ds = append(ds, hx.Discrepancy{Kind: "leaf-identity", Detail: fmt.Sprintf("%s: unrolling the type reference ends at a type named %s with %s, __schema.types lists %s with %s\n%s", where, n, sig(rm), n, want, sdl)})
+			}
+			return
+		}
+		walkRef(rm["ofType"], where)
+	}
+	for _, t := range types {
+		tm, _ := t.(map[string]interface{})
+		if tm == nil {
+			continue
+		}
+		for _, k := range []string{"fields", "inputFields"} {
+			l, _ := tm[k].([]interface{})
+			for _, f := range l {
+				fm, _ := f.(map[string]interface{})
+				if fm == nil {
+					continue
+				}
+				walkRef(fm["type"], fmt.Sprintf("%v.%v", tm["name"], fm["name"]))
+				al, _ := fm["args"].([]interface{})
+				for _, a := range al {
+					if am, _ := a.(map[string]interface{}); am != nil {
+						walkRef(am["type"], fmt.Sprintf("%v.%v(%v:)", tm["name"], fm["name"], am["name"]))
+					}
+				}
+			}
 		}
 	}
 	return
@@ -845,8 +994,10 @@ func TestC17(t *testing.T) {
 		api := loads == nil && rapid.IntRange(0, 2).Draw(rt, "goAPI") == 0
 		exercise := rapid.Bool().Draw(rt, "exercise")
 		steps := api && rapid.Bool().Draw(rt, "apiSteps")
+		draft := rapid.IntRange(0, 3).Draw(rt, "refusedDraftFirst") == 0
+		midway := failed && rapid.Bool().Draw(rt, "extensionsFailingPartWay")
 		for _, rk := range []string{"reflection", "resolver", "any"} {
-			one(rt.Fatalf, &c17Case{Schema: s, RootKind: rk, InclDep: inc, Then: then, Loads: loads, FailedLoad: failed, API: api, Exercise: exercise, APISteps: steps})
+			one(rt.Fatalf, &c17Case{Schema: s, RootKind: rk, InclDep: inc, Then: then, Loads: loads, FailedLoad: failed, API: api, Exercise: exercise, APISteps: steps, Draft: draft, Midway: midway})
 		}
 	})
 }
